@@ -239,6 +239,28 @@ def splitAddress (s : List Char) : List Char × List Char :=
 def joinAddress (sheet addr : List Char) : List Char :=
   if sheet.isEmpty then addr else sheet ++ ['!'] ++ addr
 
+/-! ## `structs::Coordinate` (src/structs/coordinate.rs) -/
+
+/-- `structs::Coordinate`: a `ColumnReference` and a `RowReference`, each a number and a lock flag
+    (`Default`: column 1, row 1, no locks) -/
+structure CoordObj where
+  col : Ref := ⟨1, false⟩
+  row : Ref := ⟨1, false⟩
+  deriving Repr, DecidableEq
+
+/-- `Coordinate::set_coordinate(value)`: the four results of `index_from_coordinate(value)` are unwrapped one after the
+    other and stored (`set_num`, `set_num`, `set_is_lock`, `set_is_lock`); `none` = one of the `unwrap()`s panics.
+    Nothing of the previous state survives a call that returns. -/
+def CoordObj.setCoordinate (_old : CoordObj) (t : List Char) : Option CoordObj :=
+  match indexFromCoordinate t with
+  | (some c, some r, some lc, some lr) => some { col := ⟨c, lc⟩, row := ⟨r, lr⟩ }
+  | _ => none
+
+/-- `Coordinate::get_coordinate()` = `coordinate_from_index_with_lock` of the four fields; `none` = its assertion
+    `col >= 1` fails -/
+def CoordObj.getCoordinate (x : CoordObj) : Option (List Char) :=
+  coordinateFromIndexWithLock? x.col.num x.row.num x.col.lock x.row.lock
+
 end Umya.Coord
 
 namespace Umya.Coord
